@@ -325,6 +325,10 @@ def run(pid, tier, seed, args, t0):
             if k >= 3:
                 continue            # the first three cases of one bounded clause are reported, the rest is in the evidence
             report(v['name'], dict(v, replayed=True, bounded=True), suffix=('-%d' % k if k else ''))
+    # ---- (thorough) must-kill mutants: property-breaking edits applied in memory; the contracts must notice each one
+    mutant_report = None
+    if tier == 'thorough' and not os.environ.get('PYVC_MUTANT'):
+        mutant_report = run_mutants(pid, quals)
     # ---- evidence
     n_obl = len(name_verdict) + len(table_results)
     n_dis = sum(1 for v in name_verdict.values() if v == 'unsat') + sum(1 for t in table_results if t['ok'])
@@ -379,6 +383,7 @@ def run(pid, tier, seed, args, t0):
                             'the undischarged ones are %s' % (n_dis, n_obl, 'the known findings printed by this run'
                             if known_lines and not violations else 'reported as violations / undecided')),
             'not_decided': P.get('not_decided', []),
+            'must_kill_mutants': mutant_report,
         },
         'assumptions': sorted(assumptions),
         'wall_s': round(time.time() - t0, 2),
@@ -413,6 +418,43 @@ def run(pid, tier, seed, args, t0):
             print('UNDECIDED property=%s %s' % (pid, u))
         return 2
     return 0
+
+
+def _mutant_worker(job):
+    m, tier = job
+    eng = engine.Engine()
+    try:
+        fr = eng.verify_function(m['qual'], mutate=(m['old'], m['new']))
+    except Exception as e:        # noqa
+        return dict(m, status='error', detail=repr(e)[:200])
+    if fr.error:
+        # an anchor that is gone means the function was edited: the mutant no longer applies (not a survivor)
+        return dict(m, status='not-applicable' if 'mutant anchor' in fr.error else 'killed', detail=fr.error[:200])
+    res = solve.discharge(fr.obligations, 'quick', procs=4, threads=True)
+    bad = sorted(set(o.name for o, r in zip(fr.obligations, res) if r['verdict'] != 'unsat'))
+    return dict(m, status='killed' if bad else 'SURVIVED', detail=bad[:4])
+
+
+def run_mutants(pid, quals):
+    """selftest/mutants.json: each entry is an edit that breaks the property; after the edit at least one obligation of the
+    function must fail to discharge.  Evidence only: a survivor is printed and recorded, the verdict of the check on the
+    real tree is not changed by it."""
+    path = os.path.join(HERE, 'selftest', 'mutants.json')
+    if not os.path.exists(path):
+        return None
+    with open(path) as f:
+        muts = [m for m in json.load(f) if m.get('prop') == pid and not m.get('skip') and m['qual'] in quals]
+    if not muts:
+        return {'mutants': 0}
+    import multiprocessing as mp
+    with mp.get_context('fork').Pool(min(4, len(muts))) as pool:
+        out = pool.map(_mutant_worker, [(m, 'quick') for m in muts], chunksize=1)
+    for r in out:
+        if r['status'] == 'SURVIVED':
+            print('MUTANT-SURVIVED property=%s %s: %s' % (pid, r['qual'].split(':')[1], r.get('name')))
+    return {'mutants': len(out), 'killed': sum(r['status'] == 'killed' for r in out),
+            'survived': [r for r in out if r['status'] == 'SURVIVED'], 'not_applicable': sum(r['status'] == 'not-applicable' for r in out),
+            'list': [{'function': r['qual'], 'edit': r.get('name'), 'status': r['status'], 'failing': r.get('detail')} for r in out]}
 
 
 class FnSummary(object):
